@@ -120,7 +120,24 @@ class World:
                 w.log.append(("exit_end", mid))
                 return swallow
 
-            if mid % 4 == 1:
+            if mid % 5 == 4:
+                # a plain function handing back an awaitable that is neither a coroutine nor a generator (the asend() of an
+                # async generator doing the work): the interpreter's SEND is then not inlined, and while that code runs the
+                # awaiting frame's f_lasti rests on SEND itself
+                def __aexit__(s, et, ev, tb):
+                    return s.worker(et, ev, tb).asend(None)
+
+                async def worker(s, et, ev, tb):
+                    w.log.append(("exit_start", mid))
+                    if probes:
+                        w.observer(w, f"in __aexit__ of {mid}")
+                    if suspend and w.ch() == 1:
+                        await trap()
+                    swallow = et is not None and issubclass(et, Boom) and w.ch() == 1
+                    w.log.append(("exit_end", mid))
+                    w.keep.append(s)          # (the generator stays suspended at this yield; it is closed with the world)
+                    yield swallow
+            elif mid % 4 == 1:
                 __aexit__ = aclose                     # an alias: the code object is named aclose
             elif mid % 4 == 2:
                 def _deco(fn):
@@ -321,6 +338,23 @@ class World:
         self.mgrs[mid] = m
         return m
 
+    @property
+    def keep(self):
+        if not hasattr(self, "_keep"):
+            self._keep = []
+        return self._keep
+
+    def anyeq(self):
+        """An object that compares equal to everything (unittest.mock.ANY style): whoever looks for a manager among the locals
+        by equality instead of identity finds this one."""
+        class AnyEq:
+            def __eq__(s, other):
+                return True
+
+            __hash__ = object.__hash__
+
+        return AnyEq()
+
     def RM(self, probes: bool = False):
         """A RE-ENTRANT manager: one object per program, entered again while it is already active (a lock-like or
         counting resource).  The same object is then listed once per active entry."""
@@ -384,6 +418,29 @@ class World:
         self._ram = RAMgr()
         self.mgrs[mid] = self._ram
         return self._ram
+
+    def LK(self, probes: bool = False):
+        """A manager implemented in C (a lock): its bound __exit__ is a builtin method, not a types.MethodType.  It cannot be
+        instrumented; the generated source wraps the statement in try/finally and reports the exit with lk_done()."""
+        import threading
+
+        mid = self.next_id
+        self.next_id += 1
+        lock = threading.Lock()
+        self.mgrs[mid] = lock
+        if not hasattr(self, "_lk_stack"):
+            self._lk_stack = []
+        self._lk_stack.append(mid)
+        self.log.append(("enter_start", mid))
+        self.log.append(("entered", mid))       # (nothing can observe the instant between this call and the C-level __enter__)
+        return lock
+
+    def lk_done(self, n: int = 1):
+        for _ in range(n):
+            if getattr(self, "_lk_stack", None):
+                mid = self._lk_stack.pop()
+                self.log.append(("exit_start", mid))
+                self.log.append(("exit_end", mid))
 
     def probe3(self, a, b, c):
         """A call with three positional arguments (the generated source passes three literal Nones: the shape of the compiler's
@@ -557,6 +614,11 @@ class Gen:
                     # a re-entrant manager (the same object every time, no `as` target)
                     items.append(("W.RAM(%s)" if is_async else "W.RM(%s)") % ("True" if self.probes else ""))
                     continue
+                if not is_async and not items and rng.random() < 0.12:
+                    # a manager implemented in C; always the FIRST item of its statement: it exits last, right before the
+                    # finally that reports its exit, so no probe can see the log out of date
+                    items.append("W.LK()")
+                    continue
                 items.append(f"W.T({t!r}, {ctor})" + (f" as {t}" if t else ""))
             kw = "async with " if is_async else "with "
             lay = rng.random()
@@ -571,6 +633,14 @@ class Gen:
             else:
                 head_lines = [ind + kw + "(", ind + "        " + ",\n".join([items[0]] + [ind + "        " + it for it in items[1:]]), ind + "):"]
             head = "\n".join(head_lines)
+            nlk = sum(it == "W.LK()" for it in items)
+            if nlk:
+                # the C-implemented managers report nothing themselves: their exit is logged by a finally around the statement
+                body = self.block(depth - 1, ind + "        ")
+                if rng.random() < 0.3 and self.budget > 0:
+                    body += self.shaped_tail(depth - 1, ind + "        ")
+                inner_head = "\n".join("    " + l for l in head.split("\n"))
+                return [ind + "try:", inner_head] + body + [ind + "finally:", ind + f"    W.lk_done({nlk})"]
             body = self.block(depth - 1, ind + "    ")
             if rng.random() < 0.3 and self.budget > 0:
                 body += self.shaped_tail(depth - 1, ind + "    ")
@@ -611,7 +681,7 @@ def gen_program(rng: random.Random, kind: str, depth: int, probes: bool = False,
         # a docstring takes constant slot 0 and 260 distinct constants come before the first None: every later
         # LOAD_CONST None needs an EXTENDED_ARG prefix
         body += ['    """doc"""'] + [f"    pad = {1000 + i}" for i in range(260)]
-    body += ["    x = y = p = q = pad = None"] + g.block(depth, "    ", 4)
+    body += ["    anyq = W.anyeq()", "    x = y = p = q = pad = None"] + g.block(depth, "    ", 4)
     if kind == "gen" and not any("yield" in l for l in body):
         body.append("    yield 0")
     if kind == "agen" and not any(l.strip().startswith("yield") for l in body):
